@@ -1,4 +1,119 @@
+/-
+  C07 — binary decoders implement their specifications.
+
+  The real decoders (cbor_parser.hpp, msgpack_parser.hpp, ubjson_parser.hpp, bson_parser.hpp) are not
+  modelled; on every run their outcome (value / error) is compared with reference decoders written in
+  Lean from the specifications (JV.Spec.Cbor: RFC 8949; JV.Spec.BinFormats: MessagePack, UBJSON draft 12,
+  BSON 1.1), executed by the driver on inputs produced by independent reference encoders in every legal
+  width and form, their mutations, every strict prefix, and every 1–2 (thorough: sampled 3) byte string.
+
+  Proved here: facts about the CBOR reference that the property names — every integer the format can
+  express is read back exactly from the head the encoder model writes (all five widths, both majors),
+  reserved additional-information values are ill-formed for every major type and continuation, a break
+  outside an indefinite item is ill-formed, a head cut short is ill-formed.
+-/
 import JV.Spec.Cbor
+import JV.Spec.BinFormats
+import JV.Model.Cbor
 namespace JV.Props.C07
-theorem placeholder : True := trivial
+open JV Spec.Cbor Model.Cbor
+
+/-- the argument of a head written by the encoder is read back exactly, for every width the ladder picks -/
+theorem head_roundtrip (major n : Nat) (hm : major < 8) (hn : n < 2 ^ 64) (rest : Bytes) :
+    ∃ ib tail, writeHead major n ++ rest = ib :: tail ∧ ib / 32 = major ∧ ib % 32 < 28 ∧ readArg (ib % 32) tail = some (n, rest) := by
+  unfold writeHead
+  by_cases h1 : n ≤ 0x17
+  · refine ⟨major * 32 + n, rest, by simp [h1], by omega, by omega, ?_⟩
+    have : (major * 32 + n) % 32 = n := by omega
+    simp [readArg, this]; omega
+  · by_cases h2 : n ≤ 0xff
+    · refine ⟨major * 32 + 0x18, n :: rest, by simp [h1, h2], by omega, by omega, ?_⟩
+      have : (major * 32 + 0x18) % 32 = 24 := by omega
+      simp [readArg, this, beVal]
+    · by_cases h3 : n ≤ 0xffff
+      · refine ⟨major * 32 + 0x19, beBytes 2 n ++ rest, by simp [h1, h2, h3], by omega, by omega, ?_⟩
+        have : (major * 32 + 0x19) % 32 = 25 := by omega
+        simp only [readArg, this, beBytes]
+        simp [beVal]
+        omega
+      · by_cases h4 : n ≤ 0xffffffff
+        · refine ⟨major * 32 + 0x1a, beBytes 4 n ++ rest, by simp [h1, h2, h3, h4], by omega, by omega, ?_⟩
+          have : (major * 32 + 0x1a) % 32 = 26 := by omega
+          simp only [readArg, this, beBytes]
+          simp [beVal]
+          omega
+        · refine ⟨major * 32 + 0x1b, beBytes 8 n ++ rest, by simp [h1, h2, h3, h4], by omega, by omega, ?_⟩
+          have : (major * 32 + 0x1b) % 32 = 27 := by omega
+          simp only [readArg, this, beBytes]
+          simp [beVal]
+          omega
+
+/-- every int64 written by the encoder model decodes to exactly that integer (both majors, all widths) -/
+theorem int_roundtrip (v : Int) (hlo : -(2 ^ 63 : Int) ≤ v) (hhi : v < 2 ^ 63) :
+    decode (writeInt v) = .ok (.int v "") [] := by
+  unfold writeInt
+  by_cases hv : v ≥ 0
+  · simp only [hv, if_true]
+    obtain ⟨ib, tail, he, hmaj, hai, hr⟩ := head_roundtrip 0 v.toNat (by omega) (by omega) []
+    simp only [List.append_nil] at he
+    rw [he]
+    have h7 : ¬ ib / 32 = 7 := by omega
+    have h28 : ¬ (ib % 32 ≥ 28 ∧ ib % 32 ≤ 30) := by omega
+    have h31 : ¬ ib % 32 = 31 := by omega
+    have e : ((v.toNat : Nat) : Int) = v := Int.toNat_of_nonneg hv
+    simp [decode, item, h7, h28, h31, hr, hmaj, e]
+  · simp only [hv, if_false]
+    obtain ⟨ib, tail, he, hmaj, hai, hr⟩ := head_roundtrip 1 (-1 - v).toNat (by omega) (by omega) []
+    simp only [List.append_nil] at he
+    rw [he]
+    have h7 : ¬ ib / 32 = 7 := by omega
+    have h0 : ¬ ib / 32 = 0 := by omega
+    have h28 : ¬ (ib % 32 ≥ 28 ∧ ib % 32 ≤ 30) := by omega
+    have h31 : ¬ ib % 32 = 31 := by omega
+    have hsmall : ¬ ((-1 - v).toNat ≥ 2 ^ 63) := by omega
+    have e : (((-1 - v).toNat : Nat) : Int) = -1 - v := Int.toNat_of_nonneg (by omega)
+    have e2 : -1 - (-1 - v) = v := by omega
+    simp [decode, item, h7, h28, h31, h0, hr, hmaj, hsmall, e, e2]
+
+/-- reserved additional information 28–30 is ill-formed on every major type 0–6, whatever follows -/
+theorem reserved_rejected (ib : Nat) (hmaj : ib / 32 ≠ 7) (hai : 28 ≤ ib % 32 ∧ ib % 32 ≤ 30) (rest : Bytes) (fuel : Nat) (tag : Option Nat) :
+    item (fuel + 1) tag (ib :: rest) = .illformed := by
+  simp [item, hmaj, hai]
+
+/-- … and on major type 7 (28–30 and the stray break 31) -/
+theorem reserved_simple_rejected (ai : Nat) (h : 28 ≤ ai ∧ ai ≤ 31) (rest : Bytes) (fuel : Nat) (tag : Option Nat) :
+    item (fuel + 1) tag ((224 + ai) :: rest) = .illformed := by
+  have h1 : (224 + ai) / 32 = 7 := by omega
+  have h2 : (224 + ai) % 32 = ai := by omega
+  have : ai ≠ 20 ∧ ai ≠ 21 ∧ ai ≠ 22 ∧ ai ≠ 23 ∧ ai ≠ 25 ∧ ai ≠ 26 ∧ ai ≠ 27 := by omega
+  by_cases h31 : ai = 31
+  · simp [item, h1, h2, h31]
+  · have h28 : ai ≥ 28 := h.1
+    simp [item, h1, h2, this, h31, h28]
+
+/-- an empty input, or a head whose argument bytes are missing, is ill-formed (truncation is never a value) -/
+theorem truncated_head_rejected (major ai : Nat) (hm : major < 7) (hai : 24 ≤ ai ∧ ai ≤ 27) (fuel : Nat) (tag : Option Nat) :
+    item (fuel + 1) tag [major * 32 + ai] = .illformed := by
+  have h1 : (major * 32 + ai) / 32 = major := by omega
+  have h2 : (major * 32 + ai) % 32 = ai := by omega
+  have h7 : major ≠ 7 := by omega
+  have h28 : ¬ (ai ≥ 28 ∧ ai ≤ 30) := by omega
+  have h31 : ai ≠ 31 := by omega
+  have hr : readArg ai [] = none := by
+    unfold readArg
+    have : ¬ ai < 24 := by omega
+    rcases (by omega : ai = 24 ∨ ai = 25 ∨ ai = 26 ∨ ai = 27) with e | e | e | e <;> simp [e]
+  simp [item, h1, h2, h7, h28, h31, hr]
+
+/-! ### kernel-evaluated instances (non-vacuity; formats other than CBOR) -/
+example : decode [0x83, 0x01, 0x20, 0xf6] = .ok (.arr [.int 1 "", .int (-1) "", .null]) [] := by rfl
+example : decode [0x9f, 0x01, 0xff] = .ok (.arr [.int 1 ""]) [] := by rfl
+example : decode [0xff] = .illformed := by rfl
+example : decode [0x5f, 0x61, 0x61, 0xff] = .illformed := by rfl                    -- text chunk inside a byte string
+example : decode [0x61, 0xff] = .illformed := by rfl                                -- invalid UTF-8
+example : Spec.Msgpack.decode [0x92, 0xcc, 0xff, 0xd0, 0x80] = .ok (.arr [.int 255 "", .int (-128) ""]) [] := by rfl
+example : Spec.Msgpack.decode [0xc1] = .illformed := by rfl
+example : Spec.Bson.decode [0x0c, 0, 0, 0, 0x10, 0x61, 0, 1, 0, 0, 0, 0] = .ok (.map [([0x61], .int 1 "")]) [] := by rfl
+example : Spec.Bson.decode [0x0d, 0, 0, 0, 0x10, 0x61, 0, 1, 0, 0, 0, 0] = .illformed := by rfl   -- size mismatch
+
 end JV.Props.C07
